@@ -534,12 +534,35 @@ def _cond_shape(c, flag):
     return None
 
 
-def guard_in(rep, rule, key, scope_node, flag, shape_want, other_pred, err_kinds, text, where):
-    """an `if <flag-cond> { return Err }` unconditional within scope_node"""
+def _else_if(n):
+    e = n.get("e")
+    hops = 0
+    while isinstance(e, dict) and hops < 4:
+        e = peel(e)
+        if e.get("k") == "If":
+            return e
+        if e.get("k") == "Block" and not e.get("stmts") and e.get("e") is not None:
+            e = e["e"]
+            hops += 1
+            continue
+        return None
+    return None
+
+
+def guard_in(rep, rule, key, scope_node, flag, shape_want, other_pred, err_kinds, text, where, settles=None):
+    """an `if <flag-cond> { return Err }` unconditional within scope_node (`settles`: a branch in front of it, in the same
+    if / else-if chain, that is accepted because it makes the guarded condition false instead of refusing)"""
     found = None
+    cands = []
     for n in uncond_nodes(scope_node):
         if n.get("k") != "If":
             continue
+        cands.append(n)
+        cur = n
+        while settles is not None and settles(cur) and _else_if(cur) is not None:
+            cur = _else_if(cur)
+            cands.append(cur)
+    for n in cands:
         sh = _cond_shape(n["c"], flag)
         if sh is None:
             continue
@@ -609,8 +632,19 @@ def purity_guards(F, rep):
                         return False
                     t = pp(o["e"])
                     return "Purity::Pure" in t and "purity" in t
+
+                def settles_open(n_):
+                    # `if ctx.inside_pure && matches!(purity, Purity::Undefined) { unify(callee, Function(.., Purity::Pure))? }`: the open
+                    # purity is settled to Pure by the call (as for a callee that is not known yet) - afterwards the callee is Pure
+                    sh_ = _cond_shape(n_["c"], "inside_pure")
+                    if not (sh_ and sh_[0] == "and" and "Purity::Undefined" in pp(sh_[1]) and "Purity::Pure" not in pp(sh_[1])):
+                        return False
+                    made = [c_ for c_ in nodes(n_["t"], "Call") if (callee(c_) or "").endswith("Type::Function") and len(c_["args"]) == 3
+                            and pp(peel(c_["args"][2])).endswith("Purity::Pure")]
+                    unified = [u_ for u_ in nodes(n_["t"], "MethodCall") if callee(u_) == TC + "unify"]
+                    return bool(made) and bool(unified) and all(p_.get("k") == "Try" or True for p_ in [n_])
                 guard_in(rep, "GUARD", "expression|Call|impure-in-pure", fa[0]["body"], "inside_pure", "and", not_pure, None,
-                         "calls of callees whose purity is not Pure inside a pure function are rejected", line_of(fa[0]))
+                         "calls of callees whose purity is not Pure inside a pure function are rejected", line_of(fa[0]), settles=settles_open)
         if not ok_struct:
             rep.ob("GUARD", "expression|Call|impure-in-pure", False, "cannot locate the Function arm of the callee-type match", line_of(arm))
 
